@@ -192,7 +192,11 @@ fn build(cfg: &Value) -> St {
     let mut links = vec![];
     let mut clients = vec![];
     for k in 1..=depth {
-        let (ct, cs) = vt::new::<ClientMessage<Req>, Response<Resp>>(&format!("c{}", k), vt::Mode::Always, 1, d_cm, d_resp);
+        // a gated hop's client transport reports readiness only while its gate is open (back-pressure)
+        let gated = cfg["gated"].as_array().map(|a| a.iter().any(|v| v.as_u64() == Some(k as u64))).unwrap_or(false);
+        let cmode = if gated { vt::Mode::Independent } else { vt::Mode::Always };
+        let (ct, cs) = vt::new::<ClientMessage<Req>, Response<Resp>>(&format!("c{}", k), cmode, 1, d_cm, d_resp);
+        cs.borrow_mut().credits = 1_000_000;
         let (stt, ss) = vt::new::<Response<Resp>, ClientMessage<Req>>(&format!("s{}", k), vt::Mode::Always, 1, d_resp, d_cm);
         let nc = client::new(client::Config::default(), ct);
         let stream = BaseChannel::with_defaults(stt).requests();
@@ -367,7 +371,25 @@ impl St {
                           "before_deadline": (self.now() as i64) < self.head_dl}));
     }
 
+    fn gate(&mut self, k: usize, open: bool) {
+        if k == 0 || k > self.depth || self.links[k - 1].c.borrow().mode != vt::Mode::Independent {
+            return;
+        }
+        emit("ChainGate", json!({"k": k, "open": open}));
+        if open {
+            self.links[k - 1].c.borrow_mut().add_credit(1_000_000);
+        } else {
+            self.links[k - 1].c.borrow_mut().credits = 0;
+        }
+    }
+
     fn quiesce(&mut self) {
+        // phase 0: the transports grant what they owe (every gate opens)
+        for k in 1..=self.depth {
+            if self.links[k - 1].c.borrow().credits == 0 {
+                self.gate(k, true);
+            }
+        }
         // phase 1: let everything in transit arrive (clock moves only to link delivery times)
         for _ in 0..50 {
             self.settle();
@@ -458,6 +480,8 @@ impl St {
             "PollOnce" => {
                 self.poll_all();
             }
+            "GateClose" => self.gate(step["k"].as_u64().unwrap_or(0) as usize, false),
+            "GateOpen" => self.gate(step["k"].as_u64().unwrap_or(0) as usize, true),
             "Deliver" => {
                 self.deliver();
             }
@@ -478,8 +502,12 @@ pub fn run(a: &Args) -> Value {
         let mut steps = vec![json!({"a":"Start","dl":dl,"tr":rng.gen_range(1..1000u64),"sampled":rng.gen_bool(0.5)})];
         let n = rng.gen_range(1..10);
         let mut abandoned = false;
+        let gated: Vec<u64> = if rng.gen_bool(0.4) { vec![rng.gen_range(1..=depth)] } else { vec![] };
         for _ in 0..n {
             let r = rng.gen_range(0..100);
+            if !gated.is_empty() && rng.gen_range(0..100) < 20 {
+                steps.push(json!({"a": if rng.gen_bool(0.6) { "GateClose" } else { "GateOpen" }, "k": gated[0]}));
+            }
             steps.push(if r < 35 {
                 json!({"a":"PollOnce"})
             } else if r < 50 {
@@ -496,7 +524,7 @@ pub fn run(a: &Args) -> Value {
                 json!({"a":"CompleteLeaf"})
             });
         }
-        scheds.push(Sched { id: format!("r{}", i), cfg: json!({"depth": depth, "delays": delays}), steps, expect: None });
+        scheds.push(Sched { id: format!("r{}", i), cfg: json!({"depth": depth, "delays": delays, "gated": gated}), steps, expect: None });
     }
     let mut index = vec![];
     for (si, s) in scheds.iter().enumerate() {
